@@ -427,9 +427,19 @@ def exec_block(p, drv):
         ratio, detail, leak_rel = compare_blocks(kobj, k, T, x, z, c, gi, gm, S, EPS64, 1e-9)
         if detail:
             res['disagreements'].append({'detail': detail})
+        if 'grads_gen' in m:
+            # L2 / memory-light: the weight program regenerated from the gradient routine (Gen.GradOps), run at Float by the driver,
+            # against the closed-form model (two Float evaluations of the same real number: operation order only)
+            gg = torch.tensor(core.unfl(m['grads_gen']), dtype=torch.float64).reshape(f, nz, d)
+            tolg = 1e-9 * (gm.abs().amax() + S.amax() + 1e-300)
+            if not bool(((gg - gm).abs() <= tolg).all()):
+                res['disagreements'].append({'detail': f'regenerated gradient program (Gen.GradOps) differs from the closed-form model by '
+                                                       f'{float((gg - gm).abs().max()):.3e} (tolerance {float(tolg):.3e}), kernel {k["kind"]} q={k["q"]}'})
+            res.setdefault('dist', {})
     nz_grad = bool((gi.abs() > 0).any()) if finite else False
     res['nontrivial'] = [p['seed'], k['kind'], k['q'], p['mode'], p['tm']] if nz_grad else None
     res['dist'] = {'kind': k['kind'], 'q': k['q'], 'mode': p['mode'], 'transform': p['tm'], 'outputs': f,
+                   'regenerated_gradient_program': 'compared' if isinstance(m, dict) and 'grads_gen' in m else 'n/a',
                    'kind_x_mode': f'{k["kind"]}/{p["mode"]}',
                    'multi_output_autograd': (f >= 2 and k['kind'] in ('prod', 'lpq', 'sumpower')),
                    'q_lt_1_coordinate_coincidence': (k['q'] < 1 and p['mode'] == 'coord'),
